@@ -839,7 +839,11 @@ async fn input_processing(
     let mut wire_shares_for_others = vec![vec![None; circ.max_reg_count]; p_max];
     for (w, inst) in circ.insts.iter().enumerate() {
         if let Op::Input(input @ Input { party, .. }) = inst.op {
-            let Share(bit, Auth(macs_and_keys)) = random_input_shares[w].clone();
+            // the position of an Input instruction is not tied to the number of inputs by
+            // Circuit::validate: a misplaced or surplus Input must not index out of bounds
+            let Some(Share(bit, Auth(macs_and_keys))) = random_input_shares.get(w).cloned() else {
+                return Err(MpcError::MissingPreprocessingShareForInst(w).into());
+            };
             let Some((mac, _)) = macs_and_keys.get(party as usize) else {
                 return Err(MpcError::MissingSharesForInput(input).into());
             };
@@ -860,7 +864,11 @@ async fn input_processing(
             let Some(input) = inputs.get(input as usize) else {
                 return Err(MpcError::InstWithoutInput(w).into());
             };
-            let Share(own_share, Auth(own_macs_and_keys)) = random_input_shares[w].clone();
+            let Some(Share(own_share, Auth(own_macs_and_keys))) =
+                random_input_shares.get(w).cloned()
+            else {
+                return Err(MpcError::MissingPreprocessingShareForInst(w).into());
+            };
             let mut masked_input = *input ^ own_share;
             for p in 0..p_max {
                 if let Some((_, key)) = own_macs_and_keys.get(p).copied()
